@@ -1074,12 +1074,18 @@ def _generate_structure_virtual_field_methods(enclosing_type_name, field_ir, ir)
             ir,
             field_reader=_VirtualViewFieldRenderer(),
         ).rendered
+        read_from_text_stream_function = {
+            "integer": "ReadIntegerFromTextStream",
+            "boolean": "ReadBooleanFromTextStream",
+            "enumeration": "ReadEnumViewFromTextStream",
+        }[field_ir.read_transform.type.which_type]
         write_methods = code_template.format_template(
             _TEMPLATES.structure_single_virtual_field_write_methods,
             logical_type=logical_type,
             destination=destination,
             transform=transform,
             range_check=_render_write_range_check(field_ir, logical_type),
+            read_from_text_stream_function=read_from_text_stream_function,
         )
     else:
         write_methods = ""
